@@ -2,7 +2,7 @@
    every weighted graph on 4 fragments with weights in {absent, t-1/64, t, t+1/64}, t = 3/4
    (4^6 = 4096 graphs), both pair orders (k-core: the 3-point lattice, all map orders). *)
 From Coq Require Import NArith ZArith QArith List Bool.
-From PV Require Import Gen.CloneConst Clone.GroupSpec Clone.GroupSpecKCore Clone.GroupCommon Clone.GroupConnected
+From PV Require Import Gen.GroupConst Clone.GroupSpec Clone.GroupSpecKCore Clone.GroupCommon Clone.GroupConnected
   Clone.GroupComplete Clone.GroupKCore Clone.GroupStar Clone.GroupLattice Clone.GroupRun.
 Import ListNotations.
 
